@@ -512,6 +512,30 @@ def run(chk, replay=None):
         else:
             nontrivial.add(("codec", kind, len(real)))
 
+    # ---- B3. the exclusion of cfg_inv (no temporary values) on the real actors: the model's refuted
+    #      statement C01_tmp_value_snapshot_refuted replayed (SetTmpValue -> snapshot -> load -> commit)
+    tkey = "d\x02g"
+    tcase = {"k": "tmp_snapshot", "key": tkey, "content": "v",
+             "commit": {"ConfigSet": {"key": tkey, "value": "v", "config_type": None, "desc": None, "history_id": 1,
+                                      "history_table_id": None, "op_time": 10, "op_user": None}}}
+    tr = lib.harness_run("dispatch", [tcase], env=env)[0]
+    n_eval += 1
+    if tr.get("r") != "ok":
+        chk.violation("tmp_snapshot case failed: %s" % json.dumps(tr)[:200], {"suite": "dispatch", "case": tcase, "impl": tr}, True)
+    else:
+        def hist_total(d):
+            return [x["history"]["total"] for x in d["config"]["keys"] if x["key"] == tkey]
+        ha, hb = hist_total(tr["a_committed"]), hist_total(tr["b_committed"])
+        chk.notes["tmp_value_snapshot"] = {"live_history_total": ha, "restarted_history_total": hb, "model": [[1], [0]]}
+        if ha != hb:
+            chk.classify("C01:tmp-value-snapshot-loses-history",
+                         "history of a config whose temporary value was snapshotted: live %s, restarted %s" % (ha, hb),
+                         {"suite": "dispatch", "case": tcase, "live": ha, "restarted": hb})
+        if (ha, hb) != ([1], [0]):
+            mism += 1
+            chk.violation("model != implementation (temporary value through a snapshot): model ([1],[0]) impl (%s,%s)" % (ha, hb),
+                          {"suite": "dispatch", "case": tcase, "impl": [ha, hb], "correspondence": "SM.ConcreteInst.tmp_value_snapshot_refuted"}, False)
+
     # ---- C. restart oracle on a real single-node Raft ------------------------------------------------------
     samples = lib.harness_run("dispatch", [{"k": "samples"}], env=env)[0]["samples"]
     g = c07.Gen(rng, samples)
